@@ -201,7 +201,7 @@ def crc_forced_zero(eng, run, raw):
                     return True
                 found = False
                 continue
-            if eng.check3(r.t != 0) == 'unsat':
+            if eng.forced(r.t == 0) is True:
                 return True
             found = False
     return found
